@@ -718,9 +718,25 @@ def lgpl_aliases():
     return out
 
 
+def predefined_macros():
+    """names the C compiler predefines (`gcc -dM -E`): `#ifdef __linux__` etc. of the .c files are resolved with them"""
+    import subprocess
+    try:
+        out = subprocess.run(["gcc", "-dM", "-E", "-"], input=b"", stdout=subprocess.PIPE, stderr=subprocess.DEVNULL, timeout=30).stdout.decode()
+    except Exception:
+        return set()
+    return set(re.findall(r"^#define\s+(\w+)", out, re.M))
+
+
+_PREDEF = None
+
+
 class Translator:
     def __init__(self, defines=(), own_files=(), prefix="", search=None, consts=None, opaque=()):
-        global ALIASES
+        global ALIASES, _PREDEF
+        if _PREDEF is None:
+            _PREDEF = predefined_macros()
+        defines = set(defines) | _PREDEF
         self.opaque = set(opaque)
         ALIASES = dict(lgpl_aliases(), **ALIASES_STATIC)
         self.texts = {}
